@@ -1100,7 +1100,10 @@ static void gen_expr(Node *node) {
   case ND_CAS: {
     gen_expr(node->cas_addr);
     push();
+    // [C11 7.17.7.4] The desired value is converted to the type of
+    // the object.
     gen_expr(node->cas_new);
+    cast(node->cas_new->ty, node->cas_addr->ty->base);
     push();
     gen_expr(node->cas_old);
     println("  mov %%rax, %%r8");
@@ -1120,7 +1123,10 @@ static void gen_expr(Node *node) {
   case ND_EXCH: {
     gen_expr(node->lhs);
     push();
+    // [C11 7.17.7.3] The new value is converted to the type of the
+    // object.
     gen_expr(node->rhs);
+    cast(node->rhs->ty, node->lhs->ty->base);
     pop("%rdi");
 
     int sz = node->lhs->ty->base->size;
